@@ -1,5 +1,7 @@
 """C03  Dependency graph is exactly the relation induced by shared file paths."""
 
+import json
+
 from hypothesis import strategies as st
 
 from vlib import api, gen, model
@@ -33,12 +35,17 @@ DIRS = ["", "w1", "w1/w2", "w2", ""]
 
 def strategy(tier):
     big = tier == "thorough"
-    base = gen.wellformed(max_targets=10 if big else 6, max_files=14 if big else 9, wds=WDS, dirs=DIRS, nb=3,
-                          spellings=(0, 1, 2, 3, 4, 5, 6, 7), min_targets=2)
+    def base(exotic):
+        return gen.wellformed(max_targets=10 if big else 6, max_files=14 if big else 9,
+                              wds=WDS + (("lnk",) if exotic else ()), dirs=DIRS, nb=3,
+                              spellings=(0, 1, 2, 3, 4, 5, 6, 7),
+                              shapes=tuple(range(12)) if exotic else tuple(range(11)), min_targets=2)
 
     @st.composite
     def with_relwd(draw):
-        d = draw(base)
+        # one case in four uses shapes that only the API tier can carry (a non-dict mapping, a symlinked
+        # working directory); the rest also goes through `gwf info`
+        d = draw(base(draw(st.sampled_from([False, False, False, True]))))
         # some targets get their working directory as a path relative to the invoking directory (API tier only;
         # the CLI tier always hands absolute working directories to gwf)
         flags = [draw(st.sampled_from([False, False, True])) for _ in d["targets"]]
@@ -99,7 +106,7 @@ def run_case(case):
         api_desc = dict(desc, targets=[dict(t, relwd=bool(f)) for t, f in zip(desc["targets"], case["relwd"])])
         labels.add("relative-working-dir")
     try:
-        graph, _ = api.build_graph(api_desc)
+        graph, _ = api.build_graph(api_desc, real=True)
     except Exception as exc:  # noqa: BLE001
         return CaseResult([Violation({"kind": "exception", "type": type(exc).__name__},
                                      f"valid workflow rejected: {type(exc).__name__}: {exc}")], False, ["exception"])
@@ -127,7 +134,10 @@ def run_case(case):
     if ends != R.endpoints():
         viols.append(Violation({"kind": "endpoints"}, f"endpoints {sorted(ends)} != {sorted(R.endpoints())}"))
 
-    viols += info_tier(desc, R)
+    if '"__m"' not in json.dumps(desc) and not any(t.get("wd") == "lnk" for t in desc["targets"]):
+        viols += info_tier(desc, R)
+    else:
+        labels.add("api-only-shape")
 
     # non-triviality: alias spellings / homonyms
     occ = []  # (text, resolved)
